@@ -154,7 +154,7 @@ PROPS = {
         technique='reference state-machine monitor in lock-step + output-constraint monitor, AddressSanitizer/UBSan',
         stages=[dict(harness='c19', variant='asan', quick=20000, thorough=1000000,
                      need=['ops.createBinding', 'ops.learn_requests', 'ops.clearSlot', 'ops.clear_nonlearning_while_others_wait', 'ops.setSlot', 'ops.gain_offset',
-                           'midi.bound_cc', 'midi.learned_cc', 'midi.unbound_ignored', 'midi.bound_nrpn', 'midi.learned_nrpn', 'nrpn.data_entry_without_select', 'nrpn.select_mid_history', 'out.messages', 'out.monotone_checked', 'out.linearity_checked']),
+                           'midi.bound_cc', 'midi.learned_cc', 'midi.unbound_ignored', 'midi.bound_nrpn', 'midi.learned_nrpn', 'nrpn.data_entry_without_select', 'nrpn.select_mid_history', 'ops.createBinding_long_path', 'ops.setSlot_far_outside', 'out.messages', 'out.monotone_checked', 'out.linearity_checked']),
                 MEMCHECK('c19', quick=3200, thorough=64000)],
         rule='case = one operation history; distinct = hash of the rendered history; every history is non-trivial.',
         exhaustive=dict(quick=False, thorough=False),
